@@ -56,7 +56,7 @@ OVERLAY = {
     "sim/observer.rs": "sim__observer.rs",
 }
 # additional harness modules for a source file that already has one: kani file -> (source file, module name)
-EXTRA_OVERLAY = {"sim__new.rs": ("sim.rs", "verif_kani_new"), "asm__obj.rs": ("asm.rs", "verif_kani_obj"), "sim__mem__z.rs": ("sim/mem.rs", "verif_kani_z"), 
+EXTRA_OVERLAY = {"sim__new.rs": ("sim.rs", "verif_kani_new"), "sim__device__timer__seed.rs": ("sim/device/timer.rs", "verif_kani_seed"), "asm__obj.rs": ("asm.rs", "verif_kani_obj"), "sim__mem__z.rs": ("sim/mem.rs", "verif_kani_z"), 
     "sim__mem__copy.rs": ("sim/mem.rs", "verif_kani_copy"),
     "sim__device__poll.rs": ("sim/device.rs", "verif_kani_poll"),
     "sim__device__h.rs": ("sim/device.rs", "verif_kani_h"),
